@@ -16,7 +16,7 @@ func init() {
 			Explanation: "Decides structural necessary conditions of 'the NewConn context governs only the initial read' on the SSA of NewConn and its function literals: " +
 				"(ASYNC) every asynchronously started function (go statement, context.AfterFunc, time.AfterFunc) that can reach the conn or ctx parameter is a goroutine that closes a channel on all of its exits, and every return of NewConn is preceded - directly or in a deferred literal registered on all paths - by a receive on that channel (a join: after it no schedule lets the goroutine act); " +
 				"(RESET) every deadline call on the connection with a non-zero time that is reachable from NewConn is made by that joined goroutine after it raised a flag, and a deferred reset to the zero time, placed after the join, of a kind that covers it (SetDeadline covers read and write), is guarded by nothing but that flag and 'the error result is nil'; a non-zero deadline set anywhere else needs an unconditional-on-success reset; " +
-				"(PROMPT) the goroutine is started before the first blocking read and reacts to ctx.Done() by a deadline call with time.Now() that covers reads and writes; " +
+				"(PROMPT) the goroutine is started before the first blocking read and reacts to ctx.Done() by a deadline call with time.Now() that covers reads and writes; the deferred code that runs after the goroutine was joined (alert conversion) does not read from the transport - nothing could interrupt that read; " +
 				"(CTXUSE) the ctx parameter is used only for Done/Err/Deadline/Value calls, it is not stored in the Conn or handed to anything that outlives the call. " +
 				"Not decided: actual schedules, GOMAXPROCS, timing - by construction a join leaves no schedule in which the goroutine acts later; transports whose SetDeadline misbehaves.",
 			Assumptions: []string{"net.Conn.SetDeadline(t) sets both the read and the write deadline, the zero time clears it (net package contract)",
@@ -361,6 +361,47 @@ func watcherRules(p *core.Prog, r *core.Run, id string) {
 		}
 		r.Check(id+".PROMPT", "NewConn:watcher-deadline", kinds["read"] && kinds["write"], p.Pos(watcher.Pos()),
 			"on <-ctx.Done() the watcher sets a deadline of time.Now() covering reads (%v) and writes (%v); both are needed: the blocked read must return and the alert written afterwards must not block", kinds["read"], kinds["write"])
+		// after the join nothing interrupts a blocked read any more: the deferred
+		// code that runs after it (the rest of the joining literal and every
+		// literal deferred earlier) may write the alert but must not read from
+		// the transport
+		var late []*ssa.Function
+		var joinDefer ssa.Instruction
+		for _, b := range nc.Blocks {
+			for _, in := range b.Instrs {
+				if d, ok := in.(*ssa.Defer); ok && joinRecv != nil && p.ResolveFuncValue(d.Call.Value) == joinRecv.Parent() {
+					joinDefer = d
+				}
+			}
+		}
+		nLate := 0
+		if joinDefer != nil {
+			for _, b := range nc.Blocks {
+				for _, in := range b.Instrs {
+					d, ok := in.(*ssa.Defer)
+					if !ok || d == joinDefer || !core.Before(d, joinDefer) {
+						continue
+					}
+					if fn := p.ResolveFuncValue(d.Call.Value); fn != nil {
+						late = append(late, fn)
+					} else if c := d.Call.StaticCallee(); c != nil {
+						late = append(late, c)
+					}
+				}
+			}
+			for _, s := range transportReads(p, reachableFuncs(p, late...)) {
+				nLate++
+				r.Check(id+".PROMPT", fmt.Sprintf("NewConn:no-read-after-join#%d", nLate), false, p.InstrPos(s.Instr), "%s reads from the transport in code deferred before the watcher's join, i.e. running after it: no deadline interrupts this read when the client stalls, so NewConn can outlive its context", s.X.Name)
+			}
+			for _, s := range transportReads(p, reachableFuncs(p, joinRecv.Parent())) {
+				if s.Fn == joinRecv.Parent() && core.Before(s.Instr, joinRecv) {
+					continue
+				}
+				nLate++
+				r.Check(id+".PROMPT", fmt.Sprintf("NewConn:no-read-after-join#%d", nLate), false, p.InstrPos(s.Instr), "%s reads from the transport after the watcher was joined", s.X.Name)
+			}
+		}
+		r.Check(id+".PROMPT", "NewConn:no-read-after-join", joinDefer == nil || nLate == 0, p.Pos(nc.Pos()), "no read from the transport in the %d deferred function(s) that run after the watcher's join (%d found)", len(late), nLate)
 	} else {
 		r.Check(id+".PROMPT", "NewConn:watcher", false, p.Pos(nc.Pos()), "no joined goroutine watches the context")
 	}
@@ -408,6 +449,45 @@ func watcherRules(p *core.Prog, r *core.Run, id string) {
 		}
 	}
 	r.Floor(id+".CTXUSE", 1)
+}
+
+// transportReads lists the calls in fns that can block reading from a
+// connection: Read on a value with deadlines (net.Conn and wrappers), and the
+// io helpers applied to such a value.
+func transportReads(p *core.Prog, fns []*ssa.Function) []site {
+	isTransport := func(v ssa.Value) bool {
+		for {
+			switch x := v.(type) {
+			case *ssa.ChangeInterface:
+				v = x.X
+				continue
+			case *ssa.MakeInterface:
+				v = x.X
+				continue
+			}
+			break
+		}
+		ms := p.SSA.MethodSets.MethodSet(v.Type())
+		return ms.Lookup(nil, "SetReadDeadline") != nil && ms.Lookup(nil, "Read") != nil
+	}
+	var out []site
+	for _, s := range allCalls(p, fns) {
+		c := s.Instr.Common()
+		switch {
+		case c.IsInvoke() && c.Method.Name() == "Read" && isTransport(c.Value):
+			out = append(out, s)
+		case matches(`io\.(ReadFull|ReadAtLeast|ReadAll|Copy|CopyN|CopyBuffer)|bufio\.NewReader.*|ech\.readRecord|\(\*ech\.Conn\)\.Read`, s.X.Name):
+			for _, a := range c.Args {
+				if isTransport(a) {
+					out = append(out, s)
+					break
+				}
+			}
+		case !c.IsInvoke() && c.StaticCallee() != nil && c.StaticCallee().Name() == "Read" && len(c.Args) > 0 && isTransport(c.Args[0]):
+			out = append(out, s)
+		}
+	}
+	return out
 }
 
 func lastDot(s string) string {
